@@ -411,5 +411,277 @@ theorem anc_two_step {g : G} {u x v : Nat} (h1 : (u, x) ∈ g.edges) (h2 : (x, v
   refine mem_union.2 (Or.inr ?_)
   exact List.mem_flatMap.2 ⟨x, mem_preds.2 h2, mem_preds.2 h1⟩
 
+/-! ## Scheduling invariants -/
+
+/-- What holds of tasks / graph / sorter while the build has not been stopped; `H` = tasks handed out so far. -/
+structure Good (s : Sess) (H : List Nat) : Prop where
+  dag : ∃ m, createDag (toProject s.tasks) {} = .ok (s.g, m)
+  reach : ∃ f, fromDag s.g isTaskV prio0 = .ok f ∧ Reach f.edges s.so H
+  nodes : ∀ u ∈ s.tasks, tv u.id ∈ s.so.nodes ∨ tv u.id ∈ s.so.done
+
+theorem Good.congr {s s' : Sess} {H : List Nat} (h : Good s H) (e1 : s'.tasks = s.tasks) (e2 : s'.g = s.g) (e3 : s'.so = s.so) :
+    Good s' H := by
+  obtain ⟨d, r, n⟩ := h
+  exact ⟨by rw [e1, e2]; exact d, by rw [e2, e3]; exact r, by rw [e1, e3]; exact n⟩
+
+theorem recreate_frame (x : Sess) (t : Nat) :
+    (recreate x t).tasks = x.tasks ∧ (recreate x t).w = x.w ∧ (recreate x t).log = x.log ∧ (recreate x t).recv = x.recv ∧
+    (recreate x t).failMarks = x.failMarks ∧ (recreate x t).crashed = x.crashed ∧ (recreate x t).twp = x.twp ∧
+    (x.stop = true → (recreate x t).stop = true) := by
+  unfold recreate
+  split
+  · simp
+  · split <;> simp
+
+theorem recreate_spec (x : Sess) (t : Nat) :
+    (recreate x t).so.done = x.so.done ∧
+    ((recreate x t).stop = false → x.stop = false ∧ ∀ H E, Reach E x.so H → Good (recreate x t) H) := by
+  unfold recreate
+  cases hc : createDag (toProject x.tasks) {} with
+  | error e => simp
+  | ok gm =>
+    obtain ⟨g, m⟩ := gm
+    simp only []
+    cases hs : fromDagAndSorter g isTaskV prio0 x.so with
+    | error e => simp
+    | ok so =>
+      simp only []
+      have hs' := hs
+      unfold fromDagAndSorter at hs'
+      cases hf : fromDag g isTaskV prio0 with
+      | error e => rw [hf] at hs'; cases hs'
+      | ok f =>
+        rw [hf] at hs'
+        simp only [Except.ok.injEq] at hs'
+        have hfd := (fromDag_init hf).1
+        have hdone : so.done = x.so.done := by rw [← hs']; simp [finish, hfd]
+        refine ⟨hdone, fun hst => ⟨hst, fun H E hr => ⟨⟨m, hc⟩, ⟨f, hf, Reach.recreate g isTaskV prio0 f so hr hf hs⟩, ?_⟩⟩⟩
+        intro u hu
+        have hn := (createDag_spec hc u hu).1
+        have hfn : tv u.id ∈ f.nodes := by
+          rw [fromDag_nodes hf]
+          exact List.mem_filter.2 ⟨hn, by unfold isTaskV tv; simp⟩
+        by_cases hd : tv u.id ∈ x.so.done
+        · right; rw [hdone]; exact hd
+        · left; rw [← hs']; simp [finish, hfn, hd]
+
+theorem Moves.good {t : Nat} {s s' : Sess} (h : Moves t s s') :
+    s'.so.done = s.so.done ∧ (s'.stop = false → s.stop = false) ∧
+    ∀ H, (s.stop = false → Good s H) → (s'.stop = false → Good s' H) := by
+  induction h with
+  | refl => exact ⟨rfl, id, fun _ h => h⟩
+  | other s' s'' _ e1 e2 e3 e4 ih =>
+    refine ⟨by rw [e3]; exact ih.1, fun h => ih.2.1 (by rw [← e4]; exact h), fun H hg hst => ?_⟩
+    exact (ih.2.2 H hg (by rw [← e4]; exact hst)).congr e1 e2 e3
+  | re s' _ ih =>
+    have hsp := recreate_spec s' t
+    refine ⟨hsp.1.trans ih.1, fun h => ih.2.1 (hsp.2 h).1, fun H hg hst => ?_⟩
+    obtain ⟨hst', hgood⟩ := hsp.2 hst
+    obtain ⟨f, _, hr⟩ := (ih.2.2 H hg hst').reach
+    exact hgood H _ hr
+  | setRe s' tk' twp' _ _ ih =>
+    have hsp := recreate_spec { s' with tasks := setTask s'.tasks tk', twp := twp' } t
+    refine ⟨hsp.1.trans ih.1, fun h => ih.2.1 (hsp.2 h).1, fun H hg hst => ?_⟩
+    obtain ⟨hst', hgood⟩ := hsp.2 hst
+    obtain ⟨f, _, hr⟩ := (ih.2.2 H hg hst').reach
+    exact hgood H _ hr
+  | addRe s' kids _ ih =>
+    have hsp := recreate_spec { s' with tasks := s'.tasks ++ kids } t
+    refine ⟨hsp.1.trans ih.1, fun h => ih.2.1 (hsp.2 h).1, fun H hg hst => ?_⟩
+    obtain ⟨hst', hgood⟩ := hsp.2 hst
+    obtain ⟨f, _, hr⟩ := (ih.2.2 H hg hst').reach
+    exact hgood H _ hr
+
+theorem findTask_setTask_ne (ts : List PTask) (tk' : PTask) (u : Nat) (h : tk'.id ≠ u) :
+    findTask (setTask ts tk') u = findTask ts u := by
+  unfold findTask setTask
+  induction ts with
+  | nil => rfl
+  | cons x xs ih =>
+    simp only [List.map_cons, List.find?_cons]
+    by_cases hx : x.id = tk'.id
+    · have h1 : (x.id == tk'.id) = true := by simpa using hx
+      have h2 : (tk'.id == u) = false := by simpa using h
+      have h3 : (x.id == u) = false := by rw [hx]; exact h2
+      simp only [h1, if_true, h2, h3]
+      exact ih
+    · have h1 : (x.id == tk'.id) = false := by simpa using hx
+      simp only [h1, Bool.false_eq_true, if_false]
+      cases hxu : (x.id == u)
+      · exact ih
+      · rfl
+
+theorem findTask_setTask_self (ts : List PTask) (tk' : PTask) (h : (findTask ts tk'.id).isSome) :
+    findTask (setTask ts tk') tk'.id = some tk' := by
+  unfold findTask setTask at *
+  induction ts with
+  | nil => simp at h
+  | cons x xs ih =>
+    simp only [List.map_cons, List.find?_cons] at h ⊢
+    by_cases hx : x.id = tk'.id
+    · have h1 : (x.id == tk'.id) = true := by simpa using hx
+      simp [h1]
+    · have h1 : (x.id == tk'.id) = false := by simpa using hx
+      simp only [h1, Bool.false_eq_true, if_false] at h ⊢
+      exact ih h
+
+theorem findTask_append_some (ts ks : List PTask) (u : Nat) (x : PTask) (h : findTask ts u = some x) :
+    findTask (ts ++ ks) u = some x := by
+  unfold findTask at *
+  rw [List.find?_append, h]; rfl
+
+theorem Moves.tasks {t : Nat} {s s' : Sess} (h : Moves t s s') :
+    (∀ u, (findTask s.tasks u).isSome → (findTask s'.tasks u).isSome) ∧
+    (∀ u x, u ≠ t → findTask s.tasks u = some x → findTask s'.tasks u = some x) := by
+  induction h with
+  | refl => exact ⟨fun _ h => h, fun _ _ _ h => h⟩
+  | other s' s'' _ e1 _ _ _ ih => rw [e1]; exact ih
+  | re s' _ ih => rw [(recreate_frame s' t).1]; exact ih
+  | setRe s' tk' twp' _ hid ih =>
+    rw [(recreate_frame _ t).1]
+    simp only []
+    refine ⟨fun u hu => ?_, fun u x hne hx => ?_⟩
+    · by_cases hut : u = t
+      · subst hut
+        rw [← hid, findTask_setTask_self _ _ (by rw [hid]; exact ih.1 _ hu)]; rfl
+      · rw [findTask_setTask_ne _ _ _ (by rw [hid]; exact fun h => hut h.symm)]; exact ih.1 u hu
+    · rw [findTask_setTask_ne _ _ _ (by rw [hid]; exact fun h => hne h.symm)]; exact ih.2 u x hne hx
+  | addRe s' kids _ ih =>
+    rw [(recreate_frame _ t).1]
+    simp only []
+    refine ⟨fun u hu => ?_, fun u x hne hx => findTask_append_some _ _ _ _ (ih.2 u x hne hx)⟩
+    have := ih.1 u hu
+    cases hf : findTask s'.tasks u with
+    | none => rw [hf] at this; cases this
+    | some y => rw [findTask_append_some _ _ _ _ hf]; rfl
+
+/-! ## The build loop -/
+
+/-- One iteration of `pytask_execute_build` for the pick `t`. -/
+def stepOf (Y : YieldFn) (F : BodyFn) (s : Sess) (t : Nat) : Sess :=
+  let s1 := protocol Y F { s with so := s.so.take [tv t] } t
+  { s1 with so := s1.so.finish [tv t] }
+
+theorem loop_cons {Y : YieldFn} {F : BodyFn} {s s' : Sess} {t : Nat} {ts : List Nat}
+    (h : loop Y F s (t :: ts) = .ok s') :
+    s.stop = false ∧ s.crashed = false ∧ LegalBatch s.so 1 [tv t] ∧ (findTask s.tasks t).isSome ∧
+      loop Y F (stepOf Y F s t) ts = .ok s' := by
+  unfold loop at h
+  split at h
+  · cases h
+  rename_i h1
+  split at h
+  · cases h
+  rename_i h2
+  split at h
+  · cases h
+  rename_i x hx
+  simp only [Bool.or_eq_true, not_or, Bool.not_eq_true] at h1
+  refine ⟨h1.1.1, h1.1.2, (legalBatchB_iff _ _ _).1 (by simpa using h2), by rw [hx]; rfl, h⟩
+
+theorem loop_append {Y : YieldFn} {F : BodyFn} : ∀ (p q : List Nat) (s s' : Sess),
+    loop Y F s (p ++ q) = .ok s' → ∃ sm, loop Y F s p = .ok sm ∧ loop Y F sm q = .ok s'
+  | [], q, s, s', h => ⟨s, rfl, h⟩
+  | t :: p, q, s, s', h => by
+    have hc := loop_cons (ts := p ++ q) h
+    obtain ⟨sm, h1, h2⟩ := loop_append p q _ s' hc.2.2.2.2
+    refine ⟨sm, ?_, h2⟩
+    have hl : legalBatchB s.so 1 [tv t] = true := (legalBatchB_iff _ _ _).2 hc.2.2.1
+    have hact : s.so.isActive = true := by
+      have := (mem_avail.1 (hc.2.2.1.2.1 (tv t) (by simp))).1
+      unfold isActive
+      cases hn : s.so.nodes with
+      | nil => rw [hn] at this; cases this
+      | cons a as => rfl
+    unfold loop
+    rw [if_neg (by simp [hc.1, hc.2.1, hact]), if_neg (by simp [hl])]
+    cases hf : findTask s.tasks t with
+    | none => rw [hf] at hc; simp at hc
+    | some x => exact h1
+
+/-- Invariant of `pytask_execute_build` after the picks `h`, for a build that started with the tasks `ts0`. -/
+structure LInv (ts0 : List PTask) (s : Sess) (h : List Nat) : Prop where
+  done : s.so.done = h.map tv
+  good : s.stop = false → Good s (h.map tv)
+  untouched : ∀ u x, u ∉ h → findTask ts0 u = some x → findTask s.tasks u = some x
+  known : ∀ u, u ∈ h → (findTask s.tasks u).isSome
+  mono : ∀ u, (findTask ts0 u).isSome → (findTask s.tasks u).isSome
+
+theorem findTask_mem {ts : List PTask} {t : Nat} {x : PTask} (h : findTask ts t = some x) : x ∈ ts := by
+  unfold findTask at h; exact List.mem_of_find?_eq_some h
+
+theorem initSess_inv {ts0 : List PTask} {w : World} {s0 : Sess} (h : initSess ts0 w = some s0) : LInv ts0 s0 [] := by
+  unfold initSess at h
+  cases hc : createDag (toProject ts0) {} with
+  | error e => rw [hc] at h; cases h
+  | ok gm =>
+    obtain ⟨g, m⟩ := gm
+    rw [hc] at h
+    simp only [] at h
+    cases hf : fromDag g isTaskV prio0 with
+    | error e => rw [hf] at h; cases h
+    | ok f =>
+      rw [hf] at h
+      simp only [Option.some.injEq] at h
+      subst h
+      obtain ⟨hd, hp⟩ := fromDag_init hf
+      refine ⟨by simpa using hd, fun _ => ⟨⟨m, hc⟩, ⟨f, hf, Reach.init f hd hp⟩, ?_⟩, fun _ _ _ h => h, fun _ h => (by cases h), fun _ h => h⟩
+      intro u hu
+      left
+      show tv u.id ∈ f.nodes
+      rw [fromDag_nodes hf]
+      exact List.mem_filter.2 ⟨(createDag_spec hc u hu).1, by unfold isTaskV tv; simp⟩
+
+theorem stepOf_inv {Y : YieldFn} {F : BodyFn} {ts0 : List PTask} {s : Sess} {h : List Nat} {t : Nat}
+    (hi : LInv ts0 s h) (hstop : s.stop = false) (hl : LegalBatch s.so 1 [tv t]) (hf : (findTask s.tasks t).isSome) :
+    LInv ts0 (stepOf Y F s t) (h ++ [t]) := by
+  have hg := hi.good hstop
+  let sa : Sess := { s with so := s.so.take [tv t] }
+  have hga : sa.stop = false → Good sa (h.map tv ++ [tv t]) := fun _ =>
+    ⟨hg.dag, by obtain ⟨f, hf, hr⟩ := hg.reach; exact ⟨f, hf, Reach.ready 1 [tv t] hr hl⟩, hg.nodes⟩
+  have hm : Moves t sa (protocol Y F sa t) := protocol_moves Y F sa t
+  have hmg := hm.good
+  have hmt := hm.tasks
+  have hstep : stepOf Y F s t = { protocol Y F sa t with so := (protocol Y F sa t).so.finish [tv t] } := rfl
+  rw [hstep]
+  refine ⟨?_, ?_, ?_, ?_, ?_⟩
+  · show ((protocol Y F sa t).so.finish [tv t]).done = (h ++ [t]).map tv
+    simp only [finish, List.map_append, List.map_cons, List.map_nil]
+    rw [hmg.1]
+    show (s.so.take [tv t]).done ++ [tv t] = _
+    simp [take, hi.done]
+  · intro hst
+    have hg1 : Good (protocol Y F sa t) (h.map tv ++ [tv t]) := hmg.2.2 _ hga hst
+    refine ⟨hg1.dag, ?_, ?_⟩
+    · obtain ⟨f, hf, hr⟩ := hg1.reach
+      exact ⟨f, hf, by simpa using Reach.done [tv t] hr⟩
+    · intro u hu
+      rcases hg1.nodes u hu with hn | hd
+      · by_cases hut : tv u.id = tv t
+        · right; show tv u.id ∈ ((protocol Y F sa t).so.finish [tv t]).done; simp [finish, hut]
+        · left; show tv u.id ∈ ((protocol Y F sa t).so.finish [tv t]).nodes; simp [finish, hn, hut]
+      · right; show tv u.id ∈ ((protocol Y F sa t).so.finish [tv t]).done; simp [finish, hd]
+  · intro u x hu hx
+    have hu' : u ∉ h ∧ u ≠ t := by simpa using hu
+    exact hmt.2 u x hu'.2 (hi.untouched u x hu'.1 hx)
+  · intro u hu
+    rcases List.mem_append.1 hu with hu | hu
+    · exact hmt.1 u (hi.known u hu)
+    · have : u = t := by simpa using hu
+      subst this
+      exact hmt.1 u hf
+  · intro u hu
+    exact hmt.1 u (hi.mono u hu)
+
+theorem loop_inv {Y : YieldFn} {F : BodyFn} {ts0 : List PTask} : ∀ (picks : List Nat) (s s' : Sess) (h : List Nat),
+    LInv ts0 s h → loop Y F s picks = .ok s' → LInv ts0 s' (h ++ picks)
+  | [], s, s', h, hi, hl => by
+    simp only [loop, Except.ok.injEq] at hl
+    subst hl; simpa using hi
+  | t :: ts, s, s', h, hi, hl => by
+    obtain ⟨h1, _, h3, h4, h5⟩ := loop_cons hl
+    have := loop_inv ts _ s' (h ++ [t]) (stepOf_inv hi h1 h3 h4) h5
+    simpa [List.append_assoc] using this
+
 end Prov
 end Pytask
